@@ -4,6 +4,7 @@ R11.1 every accepted step passes the spinodal test and the step-size test before
 R11.2 the recorded triple is (ode.t, ode.y, V) with V evaluated at exactly that point (re-minimised or evaluated)
 R11.3 range bookkeeping: safety margin 2*dT, genuine-end flags from the clipped requested range, lists joined in increasing T
 R11.4 critical temperature: sign change of F_low - F_high scanned downward from TMax and refined on the last step
+R11.6 the range bookkeeping lists are per-instance state (no shared mutable class attribute)
 R11.5 the tracer's ODE and the spinodal test use the Hessian / mixed derivative at the current point
 NOT decided: that each point is a minimum on the same branch, interpolation accuracy, whether a stop is a genuine disappearance.
 """
@@ -166,6 +167,19 @@ def rules(chk: Check) -> None:
     rk = [c_ for c_ in calls_in(fi.node, "RK45")]
     ok = len(rk) == 1 and [n(a_) for a_ in rk[0].args[:4]] == ["odeFunction", "T0", "phase0", "TEnd"]
     chk.ob("R11.5", fi.where(), "the integrator starts at (T0, phase0) and runs to the end of the requested direction", ok, key="rk45")
+    # ---- R11.6 per-phase state: the range bookkeeping lists belong to the instance (two phases are traced one after the other)
+    from ..core import shared_mutable_class_state
+    shared = shared_mutable_class_state(S)
+    mine = [h for h in shared if h[2] in ("FreeEnergy", "InterpolatableFunction", "Thermodynamics")]
+    chk.ob("R11.6", f"src/WallGo/freeEnergy.py", "range bookkeeping (minPossibleTemperature / maxPossibleTemperature) and table state are per-instance: no mutable "
+           "class-level attribute is mutated in place by the methods (the two phases must not share one [T, flag] list)", not mine,
+           "; ".join(f"{f.qual} mutates class-level `{a}` of {c}" for f, x, c, a in mine)[:300], key="per-instance-state")
+    fin = S.func(f"{FE}.__init__")
+    created = {t.attr for s_ in ast.walk(fin.node) if isinstance(s_, ast.Assign) for t in s_.targets
+               if isinstance(t, ast.Attribute) and isinstance(t.value, ast.Name) and t.value.id == "self"}
+    chk.ob("R11.6", fin.where(), "FreeEnergy.__init__ creates fresh [T, flag] lists for minPossibleTemperature and maxPossibleTemperature",
+           {"minPossibleTemperature", "maxPossibleTemperature"} <= created, str(sorted(created))[:200], key="lists-created")
+    chk.floor("R11.6", 2)
     chk.floor("R11.1", 5)
     chk.floor("R11.2", 4)
     chk.floor("R11.3", 6)
